@@ -278,7 +278,9 @@ func (l *VegasLimit) updateEstimatedLimit(startTime int64, rtt int64, inFlight i
 	}
 
 	newLimit = math.Max(1, math.Min(float64(l.maxLimit), newLimit))
-	newLimit = (1-l.smoothing)*l.estimatedLimit + l.smoothing*newLimit
+	// move towards the target by the smoothing factor; written as a step from the current value so that a target equal
+	// to it leaves it exactly unchanged (the weighted-sum form can round a limit sitting at its maximum down by one)
+	newLimit = l.estimatedLimit + l.smoothing*(newLimit-l.estimatedLimit)
 
 	if int(newLimit) != int(l.estimatedLimit) && l.logger.IsDebugEnabled() {
 		l.logger.Debugf("New limit=%d, minRTT=%d ms, winRTT=%d ms, queueSize=%d",
